@@ -555,6 +555,12 @@ func (c *client) receive(r io.Reader) (err error) {
 		cellsLen = header.CellBlockMeta.GetLength()
 	}
 	if d, ok := rpc.(canDeserializeCellBlocks); cellsLen > 0 && ok {
+		if uint64(cellsLen) > uint64(len(b)-headerLen-responseLen) {
+			err = RetryableError{fmt.Errorf("failed to decode the response: "+
+				"cellblocks length %d is larger than the %d bytes received",
+				cellsLen, len(b)-headerLen-responseLen)}
+			return
+		}
 		b := b[size-cellsLen:]
 		if c.compressor != nil {
 			b, err = c.compressor.decompressCellblocks(b)
